@@ -52,6 +52,51 @@ var (
 	hintNames []string
 )
 
+type nester struct {
+	id   uint32
+	name string
+	vec  bool
+	leaf uint32 // 0: none
+}
+
+var selfNesting []nester
+
+// deepChain: n levels of the constructor nested in itself, closed by a leaf value (if the type has one and closed is set)
+// or simply ending there
+func deepChain(ne nester, n int, closed bool) []byte {
+	per := 4
+	if ne.vec {
+		per = 12
+	}
+	w := make([]byte, 0, n*per+4)
+	for i := 0; i < n; i++ {
+		w = binary.LittleEndian.AppendUint32(w, ne.id)
+		if ne.vec {
+			w = binary.LittleEndian.AppendUint32(binary.LittleEndian.AppendUint32(w, 0x1cb5c415), 1)
+		}
+	}
+	if closed && ne.leaf != 0 {
+		w = binary.LittleEndian.AppendUint32(w, ne.leaf)
+	}
+	return w
+}
+
+// deepGzip: n levels of gzip_packed around gzip_packed around ... a small object
+func deepGzip(inner []byte, n int) []byte {
+	for i := 0; i < n; i++ {
+		inner = append(binary.LittleEndian.AppendUint32(nil, 0x3072cfa1), tlString(gzipStored(inner))...)
+	}
+	return inner
+}
+
+func gzipStored(b []byte) []byte {
+	var buf bytes.Buffer
+	zw, _ := gzip.NewWriterLevel(&buf, gzip.NoCompression)
+	zw.Write(b)
+	zw.Close()
+	return buf.Bytes()
+}
+
 func setup() {
 	if reg != nil {
 		return
@@ -74,6 +119,34 @@ func setup() {
 	}
 	sort.Strings(names)
 	ids = reg.IDs
+	// constructors that can hold a value of their own boxed type in their only field (textBold{text:RichText}), directly
+	// or in a vector (textConcat{texts:Vector<RichText>}): four (twelve) bytes of input per level of nesting
+	for _, id := range reg.IDs {
+		pt := reg.ByID[id]
+		if pt.Kind() != reflect.Ptr || pt.Elem().Kind() != reflect.Struct || pt.Elem().NumField() != 1 {
+			continue
+		}
+		ft := pt.Elem().Field(0).Type
+		switch {
+		case ft.Kind() == reflect.Interface && pt.Implements(ft):
+			selfNesting = append(selfNesting, nester{id: id, name: pt.String()})
+		case ft.Kind() == reflect.Slice && ft.Elem().Kind() == reflect.Interface && pt.Implements(ft.Elem()):
+			selfNesting = append(selfNesting, nester{id: id, name: pt.String(), vec: true})
+		}
+	}
+	for i := range selfNesting {
+		// a value without fields of the same boxed type ends the chain (textEmpty)
+		ft := reg.ByID[selfNesting[i].id].Elem().Field(0).Type
+		if selfNesting[i].vec {
+			ft = ft.Elem()
+		}
+		for _, id := range reg.IDs {
+			if pt := reg.ByID[id]; pt.Kind() == reflect.Ptr && pt.Elem().Kind() == reflect.Struct && pt.Elem().NumField() == 0 && pt.Implements(ft) {
+				selfNesting[i].leaf = id
+				break
+			}
+		}
+	}
 	for n := range hintTypes {
 		hintNames = append(hintNames, n)
 	}
@@ -280,7 +353,7 @@ func gen(t *rapid.T) (Case, []string) {
 	var classes []string
 	data, seedType := seedEncoding(t, "seed")
 	c := Case{}
-	kind := rapid.SampledFrom([]string{"mutate", "mutate", "mutate", "mutate", "container", "gzip", "soup", "vectors"}).Draw(t, "kind")
+	kind := rapid.SampledFrom([]string{"mutate", "mutate", "mutate", "mutate", "container", "gzip", "soup", "vectors", "deep"}).Draw(t, "kind")
 	switch kind {
 	case "vectors":
 		// vector ids where values are expected: vectors inside vectors, more (or fewer) of them than the caller has hints for
@@ -315,6 +388,28 @@ func gen(t *rapid.T) (Case, []string) {
 		if nvec >= 2 {
 			classes = append(classes, "mut:vector-inside-vector")
 		}
+	case "deep":
+		ne := selfNesting[rapid.IntRange(0, len(selfNesting)-1).Draw(t, "nester")]
+		n := rapid.SampledFrom([]int{3, 40, 500, 998, 999, 1000, 1001, 1002, 2500, 20000}).Draw(t, "depth")
+		if rapid.IntRange(0, 3).Draw(t, "deep-gzip") == 0 {
+			n = rapid.SampledFrom([]int{3, 40, 300, 499, 500, 501, 999, 1000, 1001, 1500}).Draw(t, "gzdepth")
+			data = deepGzip(deepChain(ne, 2, true), n)
+			classes = append(classes, "mut:deep-nesting:gzip_packed")
+		} else {
+			data = deepChain(ne, n, rapid.Bool().Draw(t, "closed"))
+			classes = append(classes, "mut:deep-nesting")
+			if n >= 20000 {
+				classes = append(classes, "mut:deep-nesting>=20000")
+			}
+		}
+		m.hist = append(m.hist, fmt.Sprintf("%s nested %d deep", ne.name, n))
+		c.Data = data
+		c.Target = "unknown"
+		if rapid.IntRange(0, 3).Draw(t, "deep-named") == 0 {
+			c.Target = ne.name
+		}
+		c.How = strings.Join(m.hist, "; ")
+		return c, append(classes, "target:unknown-no-hints")
 	case "container":
 		n := int32(m.word("count"))
 		if rapid.Bool().Draw(t, "smallcount") {
@@ -519,8 +614,8 @@ func TestC15(t *testing.T) {
 		os.MkdirAll(out, 0o755)
 		inflight = filepath.Join(out, fmt.Sprintf("inflight-%d.bin", run.Shard))
 		if f, err := os.OpenFile(inflight, os.O_RDWR|os.O_CREATE|os.O_TRUNC, 0o644); err == nil {
-			if f.Truncate(1<<20+8) == nil {
-				inflightMap, _ = syscall.Mmap(int(f.Fd()), 0, 1<<20+8, syscall.PROT_READ|syscall.PROT_WRITE, syscall.MAP_SHARED)
+			if f.Truncate(5<<20+8) == nil {
+				inflightMap, _ = syscall.Mmap(int(f.Fd()), 0, 5<<20+8, syscall.PROT_READ|syscall.PROT_WRITE, syscall.MAP_SHARED)
 			}
 			f.Close()
 		}
@@ -636,6 +731,66 @@ func TestC15(t *testing.T) {
 			}
 		}
 		run.Exhaustive("prefix truncations and boundary-word replacements (leading words) of one valid encoding per constructor (this shard's share)", n)
+	})
+	if t.Failed() {
+		return
+	}
+	t.Run("deep-nesting", func(t *testing.T) {
+		// every self-nesting constructor at depths on both sides of any plausible limit, open-ended and closed; the
+		// longest chains are a few hundred kilobytes (thorough: 4 MiB, the size of a large answer)
+		nsh := hx.NShards()
+		depths := []int{999, 1000, 1001, 5000, 100000}
+		if run.Thorough() {
+			depths = append(depths, 1000000)
+		}
+		var n int64
+		k := 0
+		for _, ne := range selfNesting {
+			for _, d := range depths {
+				if ne.vec && d > 100000 {
+					d = 340000
+				}
+				for _, closed := range []bool{false, true} {
+					k++
+					if k%nsh != run.Shard || (d >= 100000 && k%5 != 0 && !run.Thorough()) {
+						continue
+					}
+					c := Case{Data: deepChain(ne, d, closed), Target: "unknown", How: fmt.Sprintf("%s nested %d deep (closed=%v)", ne.name, d, closed)}
+					n++
+					out, err := oracle(c)
+					cls := []string{"mut:deep-nesting", "outcome:" + out}
+					if d >= 20000 {
+						cls = append(cls, "mut:deep-nesting>=20000")
+					}
+					run.Case(true, evid.Hash(ne.id, d, closed), cls...)
+					if err != nil {
+						if len(c.Data) > 8192 {
+							c.Data = c.Data[:8192]
+							c.How += "; replay file keeps the first 8192 bytes only"
+						}
+						p := run.ViolationNamed(fmt.Sprintf("deep-%08x-%d", ne.id, d), c, fmt.Sprintf("%s: %v", c.How, err))
+						t.Errorf("violation (replay %s): %v", p, err)
+						return
+					}
+				}
+			}
+		}
+		for _, d := range []int{400, 499, 500, 501, 999, 1000, 1001, 2000} {
+			k++
+			if k%nsh != run.Shard || len(selfNesting) == 0 {
+				continue
+			}
+			c := Case{Data: deepGzip(deepChain(selfNesting[0], 2, true), d), Target: "unknown", How: fmt.Sprintf("gzip_packed nested %d deep", d)}
+			n++
+			out, err := oracle(c)
+			run.Case(true, evid.Hash("deepgzip", d), "mut:deep-nesting:gzip_packed", "outcome:"+out)
+			if err != nil {
+				p := run.ViolationNamed(fmt.Sprintf("deep-gzip-%d", d), c, fmt.Sprintf("%s: %v", c.How, err))
+				t.Errorf("violation (replay %s): %v", p, err)
+				return
+			}
+		}
+		run.Exhaustive("self-nesting constructors x depths {999,1000,1001,5000,1e5 (1e6 thorough)} x {open, closed}; gzip_packed nested 400..2000 deep (this shard's share)", n)
 	})
 	if t.Failed() {
 		return
